@@ -117,6 +117,16 @@ def main(argv=None):
     entry = REGISTRY[prop]()
     if argv[1] == "--replay":
         return do_replay(prop, entry, argv[2])
+    if argv[1] == "--minimise":
+        from .minimise import Minimiser
+        with open(argv[2]) as f:
+            replay = json.load(f)
+        m = Minimiser(entry["fn"], dict(entry.get("spec", {}), property=prop), replay,
+                      budget=int(os.environ.get("VERIF_MIN_BUDGET", 300)), log=print)
+        final = m.run()
+        path = save_replay(prop, final.get("seed"), final, ".min")
+        print("minimised replay:", path)
+        return 0
     tier = argv[1]
     if tier not in ("quick", "thorough"):
         print(__doc__)
@@ -129,7 +139,9 @@ def main(argv=None):
 
     t0 = time.monotonic()
     print("check %s tier=%s VERIF_SEED=%d src=%s budget=%.0fs" % (prop, tier, seed, src, budget), flush=True)
-    base_spec = dict(entry.get("spec", {}), property=prop, seed=seed, tier=tier)
+    known = findings.known_for(prop)
+    known_sigs = sorted({x for f in known for x in (f.get("signatures") or [f.get("signature")])})
+    base_spec = dict(entry.get("spec", {}), property=prop, seed=seed, tier=tier, known_signatures=known_sigs)
     agg = explore(entry["fn"], base_spec, budget, max_runs, batch=entry.get("batch", 1))
 
     extra_cov = {}
@@ -137,7 +149,6 @@ def main(argv=None):
         # property-specific systematic part (e.g. fault enumeration sweeps)
         extra_cov = entry["post"](agg, base_spec, tier) or {}
 
-    known = findings.known_for(prop)
     known_hit = []
     new = []
     for v in agg.violations:
